@@ -136,6 +136,23 @@ impl tako::events::EventProcessor for NoEvents {
     fn on_task_notify(&mut self, _: TaskId, _: WorkerId, _: Box<[u8]>) {}
 }
 
+/// The queue id a new allocation queue gets on a server that has just been restarted from a journal: the autoalloc state is
+/// seeded with the restorer's counter, every surviving queue is re-created under its recorded id (as `start_server` does),
+/// then a new queue is added.
+pub fn live_next_queue_id(server_ref: tako::control::ServerRef, counter: u32, surviving: &[u32]) -> u32 {
+    let events = EventStreamer::new(None);
+    let shared = Rc::new(RefCell::new(MockShared::default()));
+    let mut aa = SimAutoAlloc::new(server_ref, events, counter);
+    let mut rng = Rng::new(7);
+    // (the order in which the server visits the queues is the iteration order of a hash map: take the least favourable one)
+    let mut ids = surviving.to_vec();
+    ids.sort_unstable_by(|a, b| b.cmp(a));
+    for id in ids {
+        aa.restore_queue(id, params(&mut rng), Box::new(MockHandler { shared: shared.clone() }));
+    }
+    aa.add_queue(params(&mut rng), Box::new(MockHandler { shared }), vec![Duration::ZERO], 2, 2)
+}
+
 const UNIT: Duration = Duration::from_secs(10);
 
 fn params(rng: &mut Rng) -> QueueParameters {
